@@ -240,6 +240,7 @@ func Market() Spec {
 		fix(SellN(C, "non-expiring+expiring", SO(B1, "0.5", ib(4), true, nil), SO(B2, "0.25", ib(4), false, &e20))),
 		UpdateTwice(B, 0, "0.75", "0.5"),
 		UpdateTwice(B, 0, "1.5", "2"),
+		UpdateOrder(B, B, 0, "", nil, false, nil), // same quantity and price: only the auto-retire flag is switched back on
 		UpdateOrder(B, B, 0, "2.5", nil, true, nil),
 		UpdateOrder(B, B, 0, "0.5", nil, true, &e20),
 		UpdateOrder(B, B, 1, "", pcoin("uregen", 5), false, nil),
